@@ -18,7 +18,7 @@ import fsic
 from fsic.exceptions import NonConvergenceError, SolutionError
 
 MULTI = 99
-KINDS = ['range', 'liststr', 'listmixed', 'npint', 'npstr', 'pdindex', 'pdperiodA', 'pdperiodQ', 'pddatetime']
+KINDS = ['range', 'range0', 'listfalsy', 'listfloat', 'liststr', 'listmixed', 'npint', 'npstr', 'pdindex', 'pdperiodA', 'pdperiodQ', 'pddatetime']
 
 
 class ScriptedError(Exception):
@@ -28,6 +28,12 @@ class ScriptedError(Exception):
 def make_span(kind, L):
     if kind == 'range':
         return range(1000, 1000 + L)
+    if kind == 'range0':
+        return range(0, L)  # the first label is 0 (falsy)
+    if kind == 'listfalsy':
+        return [''] + [f'b{i}' for i in range(1, L)] if L else []
+    if kind == 'listfloat':
+        return [0.5 * i for i in range(L)]  # the first label is 0.0 (falsy)
     if kind == 'liststr':
         return [f'p{i}' for i in range(L)]
     if kind == 'listmixed':
@@ -57,7 +63,7 @@ def label_of(kind, span, L, lab):
         if kind == 'pdperiodQ' and L >= 2:
             return '2000', True  # a year in a quarterly index: resolves to a slice
         return None, False
-    absent = {'range': 5, 'liststr': 'nope', 'listmixed': ('t', 99), 'npint': 5, 'npstr': 'nope', 'pdindex': 'nope',
+    absent = {'range': 5, 'range0': 999, 'listfalsy': 'nope', 'listfloat': 99.25, 'liststr': 'nope', 'listmixed': ('t', 99), 'npint': 5, 'npstr': 'nope', 'pdindex': 'nope',
               'pdperiodA': pd.Period('1990', freq='Y'), 'pdperiodQ': pd.Period('1990Q1', freq='Q'),
               'pddatetime': pd.Timestamp('1990-01-01')}[kind]
     return absent, True
@@ -100,6 +106,9 @@ def build(cfg, kind):
     m = model_class(cfg['lags'], cfg['leads'])(span)
     m.__dict__['_Y'][:] = [float(10 + i) for i in range(L)]
     m.__dict__['_Z'][:] = [float(50 + i) for i in range(L)]
+    if cfg.get('prior'):
+        m.__dict__['_status'][:] = '.'
+        m.__dict__['_iterations'][:] = 7
     m.__dict__['_v_fault'] = [cfg['fault'][i] for i in range(L)] if L else []
     m.__dict__['_v_log'] = []
     return m, span
@@ -188,7 +197,7 @@ def run_record(rec, kind):
             labels, indexes, solved = val
             lab_exp = [span[p - 1] for p in exp_visited]
             if [int(i) for i in indexes] != [p - 1 for p in exp_visited] or list(solved) != list(rec['flags']) \
-                    or len(labels) != len(lab_exp) or any(a != b for a, b in zip(labels, lab_exp)) \
+                    or len(labels) != len(lab_exp) or any(not (a == b) for a, b in zip(labels, lab_exp)) \
                     or not all(isinstance(x, bool) for x in solved):
                 diffs.append('triple')
                 obs['triple'] = repr(val)
